@@ -80,12 +80,12 @@ theorem rtOk_iff (m : Nat) (L : List SeqCall) :
 /-! ### the invariant -/
 
 def inCS : PC → Bool
-  | .locked _ | .gotSeq _ _ | .wrote _ | .ready _ _ => true
+  | .locked _ | .gotSeq _ _ | .wrote _ | .rocRead _ | .rocGot _ _ | .retRead _ | .ready _ _ => true
   | _ => false
 
 /-- the `before` ticket a thread is holding (0: none) -/
 def ticket : PC → Nat
-  | .called b | .locked b | .gotSeq b _ | .wrote b | .ready b _ => b
+  | .called b | .locked b | .gotSeq b _ | .wrote b | .rocRead b | .rocGot b _ | .retRead b | .ready b _ => b
   | _ => 0
 
 /-- what the lock holder's progress through the method body has made of the state σ it found -/
@@ -94,6 +94,9 @@ def CSRel (t : Thread) (σ st : SeqState) : Prop :=
   | .locked _, _ :: _ => st = σ
   | .gotSeq _ v, .next :: _ => st = σ ∧ v = σ.seq
   | .wrote _, .next :: _ => st = { seq := σ.seq + 1, roc := σ.roc }
+  | .rocRead _, .next :: _ => st = { seq := σ.seq + 1, roc := σ.roc } ∧ σ.seq + 1 = 0
+  | .rocGot _ t, .next :: _ => st = { seq := σ.seq + 1, roc := σ.roc } ∧ σ.seq + 1 = 0 ∧ t = σ.roc
+  | .retRead _, .next :: _ => st = σ.next.2
   | .ready _ res, op :: _ => st = (σ.step op).2 ∧ res = (σ.step op).1
   | _, _ => False
 
@@ -416,13 +419,47 @@ theorem inv_step {s0 : SeqState} {s s' : Sys} (inv : Inv s0 s) (i : Nat) (h : s.
     unfold CSRel at hr ⊢
     rw [hpc] at hr
     split at hr <;> simp_all
-  · rename_i _ todo b hpc
+  · -- wrote: read sequenceNumber, test it against 0
+    rename_i _ todo b hpc
+    cases h
+    by_cases hz : (s.st.seq == 0) = true
+    · simp only [hz, if_true]
+      refine inv_cs inv i _ _ (by simp [hpc, inCS]) (by simp [inCS]) (by simp [ticket, hpc]) ?_
+      intro σ hr
+      unfold CSRel at hr ⊢
+      rw [hpc] at hr
+      split at hr <;> simp_all
+    · simp only [hz, Bool.false_eq_true, if_false]
+      refine inv_cs inv i _ _ (by simp [hpc, inCS]) (by simp [inCS]) (by simp [ticket, hpc]) ?_
+      intro σ hr
+      unfold CSRel at hr ⊢
+      rw [hpc] at hr
+      split at hr <;> simp_all [SeqState.next]
+  · -- rocRead: read rollOverCount
+    rename_i _ todo b hpc
     cases h
     refine inv_cs inv i _ _ (by simp [hpc, inCS]) (by simp [inCS]) (by simp [ticket, hpc]) ?_
     intro σ hr
     unfold CSRel at hr ⊢
     rw [hpc] at hr
-    split at hr <;> simp_all [SeqState.step, SeqState.next]
+    split at hr <;> simp_all
+  · -- rocGot: write rollOverCount + 1
+    rename_i _ todo b t hpc
+    cases h
+    refine inv_cs inv i _ _ (by simp [hpc, inCS]) (by simp [inCS]) (by simp [ticket, hpc]) ?_
+    intro σ hr
+    unfold CSRel at hr ⊢
+    rw [hpc] at hr
+    split at hr <;> simp_all [SeqState.next]
+  · -- retRead: read sequenceNumber for the return value
+    rename_i _ todo b hpc
+    cases h
+    refine inv_cs inv i _ _ (by simp [hpc, inCS]) (by simp [inCS]) (by simp [ticket, hpc]) ?_
+    intro σ hr
+    unfold CSRel at hr ⊢
+    rw [hpc] at hr
+    split at hr <;> simp_all [SeqState.step]
+    rfl
   · rename_i b res op rest hpc htodo
     cases h; exact inv_unlock inv i b res op rest hpc htodo
   · rename_i _ todo k hpc
@@ -493,6 +530,9 @@ theorem prog_step {prog : Nat → List SeqOp} {s s' : Sys} (inv : ProgInv prog s
     · cases h
   · rename_i b rest hpc htodo; cases h; exact keep _ rfl (todoSame _ _ htodo)
   · rename_i b rest hpc htodo; cases h; exact keep _ rfl (todoSame _ _ htodo)
+  · rename_i _ todo b t hpc; cases h; exact keep _ rfl (todoSame _ _ rfl)
+  · rename_i _ todo b hpc; cases h; exact keep _ rfl (todoSame _ _ rfl)
+  · rename_i _ todo b hpc; cases h; exact keep _ rfl (todoSame _ _ rfl)
   · rename_i _ todo b t hpc; cases h; exact keep _ rfl (todoSame _ _ rfl)
   · rename_i _ todo b hpc; cases h; exact keep _ rfl (todoSame _ _ rfl)
   · rename_i b res op rest hpc htodo
